@@ -206,6 +206,128 @@ func main() {
 			}
 		}
 	}
+	// state that needs no store instruction in the package to be mutable and shared:
+	// (1) a package-level variable whose type holds a synchronisation primitive or a pool (sync.*, atomic.*, channels):
+	//     such a variable exists to be mutated by concurrent callers;
+	// (2) the address of a package-level variable handed to code the analysis does not see into - a dynamic call
+	//     (function value, interface method), a function outside the package, a closure capture, a store of the address
+	//     into the heap, a return value: whoever holds the address can write through it.
+	var stateful func(t types.Type, depth int) string
+	stateful = func(t types.Type, depth int) string {
+		if depth > 4 || t == nil {
+			return ""
+		}
+		switch x := t.(type) {
+		case *types.Named:
+			if o := x.Obj(); o != nil && o.Pkg() != nil && (o.Pkg().Path() == "sync" || o.Pkg().Path() == "sync/atomic") {
+				return o.Pkg().Path() + "." + o.Name()
+			}
+			// the internals of other packages' types are their own concern (strings.Replacer, regexp.Regexp … are
+			// documented safe for concurrent use); only the package's own types are looked into
+			if o := x.Obj(); o == nil || o.Pkg() == nil || o.Pkg() != pkgs[0].Types {
+				return ""
+			}
+			return stateful(x.Underlying(), depth+1)
+		case *types.Pointer:
+			return stateful(x.Elem(), depth+1)
+		case *types.Slice:
+			return stateful(x.Elem(), depth+1)
+		case *types.Array:
+			return stateful(x.Elem(), depth+1)
+		case *types.Map:
+			if r := stateful(x.Key(), depth+1); r != "" {
+				return r
+			}
+			return stateful(x.Elem(), depth+1)
+		case *types.Chan:
+			return "chan"
+		case *types.Struct:
+			for i := 0; i < x.NumFields(); i++ {
+				if r := stateful(x.Field(i).Type(), depth+1); r != "" {
+					return r
+				}
+			}
+		}
+		return ""
+	}
+	for _, m := range target.Members {
+		if g, ok := m.(*ssa.Global); ok && !strings.HasPrefix(g.Name(), "init$") {
+			if r := stateful(g.Type(), 0); r != "" {
+				out = append(out, fmt.Sprintf("%s stateful-type %s %s", "package", g.Name(), r))
+			}
+		}
+	}
+	// addrOf: is v the address of (part of) a package-level variable, without a load in between?
+	var addrOf func(v ssa.Value, depth int) *ssa.Global
+	addrOf = func(v ssa.Value, depth int) *ssa.Global {
+		if depth > 10 || v == nil {
+			return nil
+		}
+		switch x := v.(type) {
+		case *ssa.Global:
+			return x
+		case *ssa.FieldAddr:
+			return addrOf(x.X, depth+1)
+		case *ssa.IndexAddr:
+			// indexing a slice loaded from a global is a load; indexing an array global in place is not
+			if _, isPtr := x.X.Type().Underlying().(*types.Pointer); isPtr {
+				return addrOf(x.X, depth+1)
+			}
+			return nil
+		case *ssa.ChangeType:
+			return addrOf(x.X, depth+1)
+		case *ssa.MakeInterface:
+			return addrOf(x.X, depth+1)
+		}
+		return nil
+	}
+	for fn := range fns {
+		if fn.Pkg != target || fn.Blocks == nil {
+			continue
+		}
+		if fn.Name() == "init" || strings.HasPrefix(fn.Name(), "init#") || (fn.Parent() != nil && strings.HasPrefix(fn.Parent().Name(), "init")) {
+			continue
+		}
+		name := fn.String()
+		for _, b := range fn.Blocks {
+			for _, ins := range b.Instrs {
+				pos := prog.Fset.Position(ins.Pos())
+				where := fmt.Sprintf("%s:%d", strings.TrimPrefix(pos.Filename, dir+"/"), pos.Line)
+				report := func(kind string, v ssa.Value, extra string) {
+					if g := addrOf(v, 0); g != nil && g.Pkg == target {
+						out = append(out, fmt.Sprintf("%s %s %s %s%s", name, kind, g.Name(), where, extra))
+					}
+				}
+				switch x := ins.(type) {
+				case *ssa.Store:
+					report("address-stored", x.Val, "")
+				case *ssa.Return:
+					for _, r := range x.Results {
+						report("address-returned", r, "")
+					}
+				case *ssa.MakeClosure:
+					for _, bnd := range x.Bindings {
+						report("address-captured", bnd, "")
+					}
+				case *ssa.Send:
+					report("address-sent", x.X, "")
+				case ssa.CallInstruction:
+					com := x.Common()
+					callee := com.StaticCallee()
+					for _, a := range com.Args {
+						if callee == nil {
+							report("address-to-dynamic-call", a, "")
+						} else if callee.Pkg != target {
+							report("address-to-foreign-call", a, "->"+callee.String())
+						}
+					}
+					if com.IsInvoke() {
+						report("address-to-dynamic-call", com.Value, "")
+					}
+				}
+			}
+		}
+	}
 	sort.Strings(out)
 	fmt.Printf("globals %d %s\n", len(globals), strings.Join(globals, ","))
 	for _, l := range out {
